@@ -12,7 +12,7 @@ CHECKS = {
         "Bounded and exhaustive inside the bound: every block tree up to the stated size, with every distinguishable set of start "
         "callbacks returning False, is run through the real parser and compared with the stream the tree implies; CrossHair reports "
         "'Confirmed over all paths' per shard only when z3 has shown every unexplored branch infeasible.",
-        "Bound: <=3 (quick) / <=4 (thorough) blocks, nesting depth <=2 / <=3, five block spellings, one int declaration around every block. "
+        "Bound: <=2 blocks depth 2 with 7 payload rotations (every non-block callback kind is delivered under skipped and unskipped parents) plus <=3 blocks with plain declarations (quick); one more block and depth 3 (thorough); five block spellings. "
         "The parser runs concretely once a path's choices are fixed. Trusted: CrossHair 0.0.110, z3 5.1, the skeleton oracle in vf/blocks.py.",
         "DESIGN.md 3/C05",
     ),
@@ -33,7 +33,8 @@ CHECKS = {
         "(type, text) list; unsat after blocking = the listed class tuples are the complete set of failures inside the bound. The space decision is tabulated "
         "from the real tokfmt (22,500 pairs, 12,000 triples) each run, so a change to the table, the threshold or the loop changes the encoding.",
         "Bound: quick 2 tokens <=4 code points and 3 tokens <=3; thorough 2 tokens <=6, 3 tokens <=5, 4 tokens <=4, 5 tokens <=5. Known findings (D2 families) are matched by class tuple "
-        "and still replayed. Trusted: translator (validated every run), z3.",
+        "and still replayed. Two premises of the analysis are decided by CrossHair on the real code: every TokenStream reader hands out stream tokens only (all raw token sequences <=4 / 6 over a stub lexer), and every Token "
+        "exposed in a result carries the type the lexer gives its text (26 value positions x 85 expressions + decltype / sizeof... / pragma sources). Trusted: translator (validated every run), z3.",
         "DESIGN.md 3/C16",
     ),
     "C08": (
@@ -41,7 +42,7 @@ CHECKS = {
         "regex -> z3 compilation (E-RX) of the built master regex: per-rule verification conditions (non-empty matches, newline containment, reference literal grammars included in the right class under first-match, keywords, maximal munch) decided by z3; CrossHair symbolic execution of every t_* body (symbolic text, symbolic line counter) and of _fill_tokbuf over a stub lexer",
         "Each VC is decided by z3 for all code-point strings up to the bound at a token start with arbitrary right context; the rule functions are confirmed by CrossHair over all paths "
         "for all texts of the rule's language up to the length bound and all line numbers; _fill_tokbuf is confirmed against a reference over all raw token strings up to the bound.",
-        "Bound: 6 (quick) / 9 (thorough) code points per VC, rule texts <=5..14 characters, _fill_tokbuf <=4 / <=6 raw tokens over 9 kinds. Literals longer than the bound are covered only "
+        "Bound: 6 (quick) / 9 (thorough) code points per VC, rule texts <=5..14 characters (rules whose message formatting forks per text are confirmed over a superset: any text, or an opaque text that can only be formatted), _fill_tokbuf <=4 / <=6 raw tokens over 9 kinds. Literals longer than the bound are covered only "
         "by the inductive shape of the VCs. Reference grammars = C++ lexical grammar restricted to the forms the property lists. Trusted: translator (validated every run), z3, CrossHair.",
         "DESIGN.md 3/C08",
     ),
@@ -50,7 +51,8 @@ CHECKS = {
         "CrossHair (z3 strings) symbolic execution of the real _gcc_filter / _pcpp_filter / _msvc_filter and of the depfile writer with symbolic file names and lazily forked line sequences; name relations found by the solver are replayed through real g++ and pcpp with parse_file",
         "For all main-file names f and marker names g inside the bound (symbolic strings: suffix, prefix, sub-directory, embedded space relations are found by z3, not enumerated) and all line "
         "sequences inside the bound, a content line is kept iff the most recent marker names exactly f; the depfile entries un-escape to exactly the dependency names. 'Confirmed over all paths' per shard.",
-        "Bound: |f|<=3, |g|<=4 (quick) / 4, 5 (thorough) over the alphabet {a,b,/,.,space}; 2 / 3 lines after the first marker; one symbolic dependency name <=2 / 3 chars incl. backslash and space. "
+        "Bound: |f|<=3, |g|<=4 (quick) / 4, 5 (thorough) over the alphabet {a,b,/,.,space}; 2 / 3 lines after the first marker; one symbolic dependency name <=2 / 3 chars incl. backslash and space; "
+        "the lexer's marker rule (t_PP_DIRECTIVE) is run on ALL file names <=7 characters (any characters but quote / newline). "
         "io.StringIO, open and pcpp are stubbed inside the traced harnesses; MSVC is decided at filter level only (cl.exe not installed). CrossHair's negative-slice bug is patched in the runner (vf/chrun.py).",
         "DESIGN.md 3/C19",
     ),
@@ -59,15 +61,16 @@ CHECKS = {
         "CrossHair (z3) symbolic execution of the real parse_file / CxxParser.__init__ with open(), sys.stdin and os.fsdecode stubbed and symbolic path and encoding strings; tools (nondefault_repr, CLI json, SimpleCxxVisitor) compared on a corpus regenerated from /repo/tests; concrete confirmation per encoding",
         "For every path string (str and os.PathLike) and every encoding string or None inside the bound CrossHair confirms over all paths that the file is opened exactly once, in text mode, with that "
         "path and encoding (default utf-8-sig), that '-' reads stdin and opens nothing, and that the result equals parse_string of the content. The tool identities are checked on ~250 regenerated programs.",
-        "Bound: paths <=4 chars, encodings <=6 chars, four contents. open/stdin/os.fsdecode are stubs (codecs and OS trusted). Tool comparisons are concrete (translation-validation style) over the test-suite corpus.",
+        "Bound: paths <=4 chars, encodings <=6 chars, four contents. open/stdin/os.fsdecode are stubs (codecs and OS trusted). eval(nondefault_repr(d)) == d is explored for results holding every string <=2 / 3 code points over 16 code-point classes "
+        "(quotes, backslash, controls, Latin-1, BMP, non-BMP, lone surrogate) in every string-bearing field; the other tool comparisons are concrete over the test-suite corpus.",
         "DESIGN.md 3/C20",
     ),
     "C18": (
         "model_checking",
         "CrossHair (z3): the preprocessor-hook contract on the real CxxParser.__init__ / parse_string / parse_file with symbolic filename and content strings and stubbed open(); exhaustive CrossHair exploration of a declaration grammar for the convert_void_to_zero_params and verbose differentials",
         "Hook: confirmed over all paths for all filename and content strings inside the bound and three entry points (called exactly once with exactly those values, nothing opened, result == parse_string(returned)). "
-        "Options: every declaration of the grammar (11 forms x parameter-list shapes at every nesting level) is parsed under all option values; result(False) with lone unnamed void lists emptied == result(True), the number of kept lists equals the number written, verbose == default.",
-        "Bound: strings <=4 chars; 11 declaration forms, 10 parameter-list shapes, up to two independent lists per declaration. The parser runs concretely per path in the differential harness. `(void x)` / `(const void)` are not generated (unspecified).",
+        "Options: every declaration of the grammar (17 forms incl. destructors, conversion operators, friends and extern blocks x parameter-list shapes at every nesting level) is parsed under all option values; result(False) with lone unnamed void lists emptied == result(True), the number of kept lists equals the number written, verbose == default.",
+        "Bound: strings <=4 chars; 17 declaration forms, 10 parameter-list shapes, up to two independent lists per declaration. The parser runs concretely per path in the differential harness. `(void x)` / `(const void)` are not generated (unspecified).",
         "DESIGN.md 3/C18",
     ),
     "C10": (
@@ -76,8 +79,8 @@ CHECKS = {
         "Arithmetic: confirmed over all paths for all physical lines, directive numbers, distances and previous offsets (unbounded integers) and all quoted names inside the bound: one directive step, which is inductive. "
         "Plumbing: for every listed program shape and ALL strictly increasing line assignments every declaration callback carries a location inside its declaration's extent and the file name. "
         "End to end: every preamble (blank lines, comments, continuations, CRLF, #line, # N) x probe (3 declarations, 3 errors) x shift is run through the real lexer and compared with a counting oracle.",
-        "Bound: 3 program shapes (all callback kinds with a documented location assignment), names <=4 chars, <=3 (quick) / 4 (thorough) preamble elements. Character-level line counting is C08. "
-        "Error-message prefix with symbolic lines is not decidable (f-strings realise symbolic ints): checked end to end only. D13 is a known finding.",
+        "Bound: 3 program shapes (all callback kinds with a documented location assignment, incl. operator members), names <=7 chars, <=3 (quick) / 4 (thorough) preamble elements of 13 kinds (incl. blank lines made of blanks). Character-level line counting is C08. "
+        "Error-message prefix with symbolic lines is not decidable (f-strings realise symbolic ints): checked end to end only.",
         "DESIGN.md 3/C10",
     ),
     "C04": (
@@ -101,26 +104,27 @@ CHECKS = {
     "C13": (
         "model_checking",
         "CrossHair (z3) exhaustive exploration of region x bracket-balanced token soups (grammar-generated) on the real parser; oracle: result identical to the empty-region parse, including the declarations that follow",
-        "For each of 14 skippable regions (function / method / constructor / operator / template bodies, ctor-initializer arguments, [[ ]] / __attribute__ / __declspec / alignas arguments, static_assert) every "
+        "For each of 16 skippable regions (function / method / constructor / operator / template bodies, ctor-initializer arguments, [[ ]] / __attribute__ / __declspec / alignas arguments, static_assert) every "
         "bracket-balanced soup inside the bound is parsed by the real parser; 'Confirmed over all paths' per shard = the bounded soup space was exhausted.",
-        "Bound: quick = 17 atoms + 3 bracket kinds up to 2 tokens and a 6-atom core alphabet (incl. '<', '>', a string literal full of brackets) up to 4 tokens; thorough = 3 and 6 tokens. Tokens are blank-separated. "
-        "D15 (angle-bracket heuristic of _consume_balanced_tokens) is a known finding matched by class (failure disappears when '<' '>' are removed).",
+        "Bound: quick = 17 atoms + 3 bracket kinds up to 2 tokens and a 6-atom core alphabet (incl. '<', '>', a string literal full of brackets) up to 4 tokens; thorough = 3 and 5 tokens. Tokens are blank-separated. "
+        "D15 (angle-bracket heuristic of _consume_balanced_tokens) is a known finding matched per region by the defect's own trigger shape (a '>' arrives while a round / square / curly bracket is innermost and a '<' is pending further out) - any other failing content is reported.",
         "DESIGN.md 3/C13",
     ),
     "C14": (
         "model_checking",
-        "CrossHair (z3) exhaustive exploration of 23 value-bearing positions x a 68-expression token grammar and of all token strings through _consume_value_until, on the real parser; oracle: the expression's own token texts minus the documented delimiters, following declaration intact",
+        "CrossHair (z3) exhaustive exploration of 26 value-bearing positions (incl. leading / trailing / method requires-clauses) x an 85-expression token grammar and of all token strings through _consume_value_until, on the real parser; oracle: the expression's own token texts minus the documented delimiters, following declaration intact",
         "Every (position, expression) pair and every kernel token string inside the bound is parsed by the real parser and compared with the expression's own token list; "
         "'Confirmed over all paths' = the bounded space was exhausted. Known findings (D5 glued ]] and D16 angle-bracket heuristic) are listed per (position, expression) and are part of the assertion, so any other failing pair is reported.",
-        "Bound: 23 positions, 68 expressions, kernel strings <=5 (quick) / 6 (thorough) tokens over 11 kinds. Expected tokens come from lexing the expression alone with the real lexer (lexing is C08).",
+        "Bound: 26 positions, 85 expressions, kernel strings <=5 (quick) / 6 (thorough) tokens over 11 kinds. Expected tokens come from lexing the expression alone with the real lexer (lexing is C08), except for literal expressions whose token texts are written by hand. "
+        "D23 (requires-clause drops '::'; pinned by a test) and D25 (literal primary rejected) are known findings listed per (position, expression, failure text).",
         "DESIGN.md 3/C14",
     ),
     "C12": (
         "model_checking",
-        "CrossHair (z3): inductive inter-declaration step on the real parser with a symbolic anon_id from enclosing states reached through the public API; exhaustive CrossHair exploration of ordered pairs of a 42-form pool (28-form member pool) in 4 (3) contexts against an identity-aware merge, and of 8 scope equivalences",
+        "CrossHair (z3): inductive inter-declaration step on the real parser with a symbolic anon_id from enclosing states reached through the public API; exhaustive CrossHair exploration of ordered pairs of a 45-form pool (32-form member pool) in 4 (3) contexts: in-process parse(A B) against an identity-aware merge of parse(A), parse(B) taken from fresh interpreters, and of 8 scope equivalences",
         "Inductive step: for every pool form in every context and ALL anon_id values, the state object and visitor are restored, no token is pending, anon_id grew by exactly the number of anonymous types and all emitted ids lie in (anon_id, anon_id+k] - so nothing is retained between declarations and concatenations of any length compose. "
         "Pairs / equivalences: every ordered pair and every (equivalence, form) is parsed by the real parser and compared; 'Confirmed over all paths' = exhausted.",
-        "Bound: the pools in vf/props/c12.py; pairs only (longer sequences through the inductive argument). parser.current_namespace is written but never read by the parser and is not asserted.",
+        "Bound: the pools in vf/props/c12.py; pairs only (longer sequences through the inductive argument). A failing pair is re-judged in a fresh interpreter inside the harness, so only failures the pair causes by itself are reported (history effects are C15). parser.current_namespace is written but never read by the parser and is not asserted.",
         "DESIGN.md 3/C12",
     ),
     "C11": (
@@ -128,14 +132,14 @@ CHECKS = {
         "CrossHair (z3) exhaustive exploration of (a) all doc-comment token buffers through the real get_doxygen over a stub lexer and (b) all ordered pairs of declaration kinds x comment arrangements in namespace and class context through parse_string; three-valued oracle written from the statement",
         "Kernel: every token buffer inside the bound is run through the real get_doxygen and compared with 'the documentation comments of the block that immediately precedes the first real token'. "
         "Hand-over: every ordered pair (kind, arrangement) x (kind, arrangement) is parsed and judged: must-be-X / must-be-None / unspecified per declaration plus the universal clauses (no text twice, never a second declarator, nothing across blank line / access specifier / block boundary, plain comments contribute nothing).",
-        "Bound: kernel buffers <=5 (quick) / 7 (thorough) tokens over 8 kinds; 13 namespace-level and 10 class-level declaration kinds x 11 arrangements, pairs only. Cases the statement leaves open are not asserted (listed in evidence assumptions). D18a/D18b (trailing scan across tokens) are known findings matched by shape.",
+        "Bound: kernel buffers <=5 (quick) / 7 (thorough) tokens over 8 kinds; 13 namespace-level, 10 class-level and 5 enumerator kinds x 14 arrangements, pairs only. Cases the statement leaves open are not asserted (listed in evidence assumptions). D18a/D18b (trailing scan across tokens) are known findings matched by shape.",
         "DESIGN.md 3/C11",
     ),
     "C09": (
         "model_checking",
-        "regex -> z3 (E-RX): for solver-chosen token classes a, b and every layout string, lex(a + layout + b) = a, discardables, b; CrossHair (z3) exhaustive exploration of program x token gap x layout (x second gap) through parse_string against the baseline result; directive lines with trailing comments",
+        "regex -> z3 (E-RX): for solver-chosen token classes a, b and every layout string, lex(a + layout + b) = a, discardables, b; CrossHair (z3) exhaustive exploration of program x token gap x layout (x second gap) through parse_string against the baseline result; comment extents decided by z3 for all strings; directive lines with trailing / inner comments and commented declaration lines before a directive",
         "Layer L: z3 decides for all code-point strings inside the bound that no pair of stream tokens separated by a layout string lexes differently. Layers S+P: every program of the pool, every token gap (from the real lexer's offsets) and every layout string is parsed and compared with the baseline; 'Confirmed over all paths' = exhausted.",
-        "Bound: layer L 2 tokens <=3 (quick) / 5 (thorough) code points x 10 layouts; 50 programs x all gaps x 17 layouts (thorough: two gaps at once). No documentation comments in the programs (C11). D9/D10 (comment at the end of a #pragma / #include line) are known findings.",
+        "Bound: layer L 2 tokens <=3 (quick) / 5 (thorough) code points x 10 layouts; comment extents for all strings of 2..8 / 10 code points; 56 programs x all gaps x 17 layouts (thorough: two gaps at once). No documentation comments in the programs (C11). D9/D10 (comment at the end of a #pragma / #include line) are known findings.",
         "DESIGN.md 3/C09",
     ),
     "C06": (
@@ -143,7 +147,8 @@ CHECKS = {
         "z3 on the E-RX encoding of the built lexer (totality: rule / literal / t_error at every position); CrossHair (z3) on every lexer error rule with symbolic text and line; exhaustive CrossHair exploration of all token sequences over a reduced alphabet computed from parser.py's AST, of rule-breaking constructs x block contexts and of truncations, through parse_string",
         "Lexer: unsat for all code-point strings inside the bound that Lexer.token could reach PLY's internal error branch or make no progress; error rules confirmed over all paths to raise LexError with the token's location. "
         "Tokens: EVERY token sequence inside the bound over one spelling per class of token types parser.py can tell apart (plus compared values and lexer-error spellings) returns or raises CxxParseError with prefix '<file>:<existing line>: ' and a cause - so the except block itself never raises. "
-        "Rejection: 37 rule-breaking constructs in 7 block contexts; truncation of 50 programs at every token boundary.",
+        "Illegal characters: z3 shows that every code point outside the C++ basic source character set enters t_error at a token start and that only literal / comment / directive rules can contain one. "
+        "Rejection: 54 rule-breaking constructs in 7 block contexts x 6 #line preambles (the reported file:line must be one a physical line has under a reference reading of the directives); truncation of 56 programs at every token boundary.",
         "Bound: lexer n<=5 (quick) / 8 (thorough) code points; sequences <=2 tokens over the ~100-spelling reduced alphabet and <=3 over a 33-spelling core (thorough 3 / 4). Tokens are rendered blank/newline separated. BaseException and resource exhaustion are outside.",
         "DESIGN.md 3/C06",
     ),
@@ -151,7 +156,7 @@ CHECKS = {
         "model_checking",
         "CrossHair (z3) exhaustive exploration of inputs and ordered input pairs: frame condition (structural fingerprint of every module- and class-level object before/after each parse), history independence against fresh-interpreter baselines, re-entrant parses from inside every callback",
         "(F) for every input of the pool no parse leaves a write in any of the ~530 module/class-level objects (incl. the prototype lexer); (H) for ALL ordered pairs (A, B) the outcome of B after A equals its outcome as the first parse of a fresh interpreter; (R) for all pairs, B parsed from inside every callback of A equals its stand-alone outcome and A is unaffected. 'Confirmed over all paths' = the pair space was exhausted.",
-        "Bound: pool of 64 valid / invalid / truncated / lexer-error inputs; histories of length 2 (longer ones only through (F)). THREAD SCHEDULES ARE NOT EXPLORED - no engine here models Python interleavings; that quantifier is covered only via (F) under the assumption that concurrent reads of unmodified objects are safe in CPython. One concrete 4-thread run is a smoke test, not a verdict.",
+        "Bound: pool of 100 valid / invalid / truncated / lexer-error inputs incl. inputs through the pcpp hook; fresh-interpreter outcomes under 3 (quick) / 8 (thorough) PYTHONHASHSEED values must agree; histories of length 2 (longer ones only through (F)). THREAD SCHEDULES ARE NOT EXPLORED - no engine here models Python interleavings; that quantifier is covered only via (F) under the assumption that concurrent reads of unmodified objects are safe in CPython. One concrete 4-thread run is a smoke test, not a verdict.",
         "DESIGN.md 3/C15",
     ),
     "C02": (
@@ -159,7 +164,7 @@ CHECKS = {
         "CrossHair (z3) exhaustive exploration of C++-legal type trees x 11 declaration contexts printed by an independent inside-out printer, of ALL declarator token strings against a reference declarator parser, and of template-argument pairs (stream restoration, type/value classification), on the real parser",
         "Every legal tree up to the depth bound in every context must decode to exactly the generator's tree and name; every token string the reference declarator parser accepts must yield its tree; "
         "after every parse the swapped token stream is restored and type-ids are types. 'Confirmed over all paths' = the bounded space was exhausted.",
-        "Bound: depth <=2 (quick) / 3 (thorough) over 6 base types and 10 wrappers; token strings <=4 / 6 over 11 token kinds; 29 x 29 template-argument pairs. Member pointers are outside (documented TODO of the parser). "
+        "Bound: depth <=2 (quick) / 3 (thorough) over 7 base types and 12 wrappers; token strings <=4 / 6 over 11 token kinds; 29 x 29 template-argument pairs. Member pointers are outside (documented TODO of the parser). "
         "D20 (array / parenthesised type-ids as template arguments) and D22 (nested redundant parentheses) are known findings matched by class.",
         "DESIGN.md 3/C02",
     ),
@@ -167,12 +172,12 @@ CHECKS = {
         "model_checking",
         "CrossHair (z3) exhaustive exploration of the C02 type-tree space x 6 formatter positions: each tree is formatted by the real format_decl / format / Parameter.format and re-parsed by the real parser; failures minimised by subtree and classified; name / specialization / decltype / value formats on parsed sources",
         "Every C++-legal tree up to the depth bound, in variable, parameter, typedef, alias, template-argument and Parameter position, must re-parse to an equal tree with the same name; 'Confirmed over all paths' = exhausted.",
-        "Bound: depth <=2 (quick) / 3 (thorough), 6 base types, 10 wrappers. Array / parenthesised type-ids are not re-parsed in template-argument position (parser finding D20 of C02). AnonymousName is outside (documented unstable).",
+        "Bound: depth <=2 (quick) / 3 (thorough) over 7 base types and 12 wrappers, one level deeper over int. D26 (sizeof...(Ts) argument also flagged as a pack; pinned by a test) is a known finding. Array / parenthesised type-ids are not re-parsed in template-argument position (parser finding D20 of C02). AnonymousName is outside (documented unstable).",
         "DESIGN.md 3/C17",
     ),
     "C01": (
         "model_checking",
-        "CrossHair (z3) exhaustive exploration of an AST-first declaration grammar (8 form families x variations x 7 scopes x 7 ignored decorations; ordered pairs in the thorough tier) on the real parser against independently built ParsedData, plus a type-conformance walk; ParsedTypeModifiers.validate with symbolic booleans",
+        "CrossHair (z3) exhaustive exploration of an AST-first declaration grammar (8 form families x variations x 8 scopes x 7 ignored decorations; ordered pairs of one representative per variation pool in the thorough tier) on the real parser against independently built ParsedData, plus a type-conformance walk; ParsedTypeModifiers.validate with symbolic booleans",
         "Every program of the grammar inside the bound is parsed by the real parser and must equal the ParsedData built from its abstract syntax (one entry per declarator, in order, in the scope where it was written, same names / types / specifiers / parameters / defaults / template headers / flags), and every object must conform to the published dataclass field types; "
         "validate is confirmed over all paths for all combinations of specifier sets and flags.",
         "Bound: single declarations (quick: reduced variation pools) and ordered pairs (thorough); scope depth <=2; fixed identifier spelling. Expressions inside values are C14, deep declarators C02.",
